@@ -428,7 +428,11 @@ class HvacVentilator(FilterChange):  # FAN: RP/31DA, I/31D[9A]
             SZ_EXHAUST_FAN_SPEED: self.exhaust_fan_speed,
             **{
                 k: v
-                for code in [c for c in (Code._31D9, Code._31DA) if c in self._msgs]
+                for code in [
+                    c
+                    for c in (Code._31D9, Code._31DA)
+                    if c in self._msgs and not self._msgs[c]._expired
+                ]
                 for k, v in self._msgs[code].payload.items()
                 if k != SZ_EXHAUST_FAN_SPEED
             },
